@@ -683,6 +683,10 @@ func scConfLaggingApplier(d *Driver) {
 	case v < 6:
 		scOwnRemovalPending(d, l, x)
 		return
+	case v < 8 && len(joiners) >= 2 && len(oth) >= 2:
+		d.unfreeze()
+		scJointHalves(d, l, joiners)
+		return
 	}
 	nChanges := 1 + d.r.Intn(3)
 	for k := 0; k < nChanges; k++ {
@@ -855,6 +859,68 @@ func scTwoChangesBehind(d *Driver, l *AppNode, x uint64, joiners []uint64) {
 	d.with(p, 30)
 	d.heal()
 	d.settle(120)
+}
+
+// an explicit joint configuration (two old members replaced by two new ones) stays in force while the
+// group is split along the two halves: the new members can reach a majority of the incoming voters only,
+// the old members a majority of the outgoing voters only; both sides campaign and propose
+func scJointHalves(d *Driver, l *AppNode, joiners []uint64) {
+	var olds []uint64
+	for _, id := range d.others(l.ID) {
+		if d.c.Nodes[id].Cfg.Initial {
+			olds = append(olds, id)
+		}
+	}
+	if len(olds) < 2 {
+		d.settle(100)
+		return
+	}
+	j1, j2 := joiners[0], joiners[1]
+	cc := fmt.Sprintf("explicit:v%d v%d r%d r%d", j1, j2, olds[0], olds[1])
+	if d.c.Do(Step{Act: "ProposeConfChange", Node: l.ID, Pid: d.nextPid, CC: cc}) {
+		d.nextPid++
+	}
+	joint := func(n *AppNode) bool {
+		if n == nil || n.RN == nil {
+			return false
+		}
+		st, perr := safeState(n.RN)
+		return perr == "" && len(st.ConfState.GetVotersOutgoing()) > 0
+	}
+	if !d.waitFor(100, func() bool { return joint(d.c.up(l.ID)) && joint(d.c.up(j1)) && joint(d.c.up(j2)) }) {
+		d.settle(120)
+		return
+	}
+	d.settle(20)
+	// the leader stays with the old members; the new members are on their own
+	d.isolate([]uint64{j1, j2})
+	p := calm
+	p.Tick = 4
+	for k := 0; k < 3; k++ {
+		for t := 0; t < 12; t++ {
+			d.c.Do(Step{Act: "Tick", Node: j1})
+			d.c.Do(Step{Act: "Tick", Node: j2})
+		}
+		d.c.Do(Step{Act: "Campaign", Node: []uint64{j1, j2}[d.r.Intn(2)]})
+		d.with(p, 30)
+		if n := d.c.up(l.ID); n != nil && safeIsLeader(n.RN) && pct(d.r, 50) {
+			d.propose(n, 1, false)
+		}
+	}
+	for _, n := range d.upNodes() {
+		if safeIsLeader(n.RN) {
+			d.propose(n, 1, false)
+		}
+	}
+	d.with(p, 40)
+	d.heal()
+	d.settle(60)
+	if ld := d.leader(); ld != nil {
+		if d.c.Do(Step{Act: "ProposeConfChange", Node: ld.ID, Pid: d.nextPid, CC: "leave"}) {
+			d.nextPid++
+		}
+	}
+	d.settle(100)
 }
 
 // a change that removes x is committed and handed to x's application, which has not applied it yet
